@@ -88,6 +88,31 @@ def enc_image(spec):
     return body + hashlib.md5(body).digest()
 
 
+CKSUM_VALUES = (0x00, 0x01, 0x7f, 0x80, 0xff)
+
+
+def force_header_cksum(spec, v):
+    """adjust one free byte (the last OEM byte, or the capabilities byte of a header without OEM data)
+    so that the header's zero-checksum byte comes out as v"""
+    h = spec['header']
+    delta = (enc_header(h)[-1] - v) % 256
+    if h['oem']:
+        oem = bytearray(bytes.fromhex(h['oem']))
+        oem[-1] = (oem[-1] + delta) % 256
+        h['oem'] = bytes(oem).hex()
+    else:
+        h['capabilities'] = (h['capabilities'] + delta) % 256
+    assert enc_header(h)[-1] == v
+    return spec
+
+
+def force_action_cksum(a, v):
+    """choose the component mask so that the record header's zero-checksum byte is v"""
+    a['components'] = (-v - a['type']) % 256
+    assert enc_action(a)[2] == v
+    return a
+
+
 def rand_bytes(rng, n):
     return bytes(rng.getrandbits(8) for _ in range(n)) if n < 64 else rng.randbytes(n)
 
@@ -538,6 +563,25 @@ def run(ctx):
                 a.update(version=rand_version(rng), description=rand_description(rng), firmware=rand_bytes(rng, n).hex())
             s['actions'] = [a]
             specs.append(s)
+    # boundary VALUES of every checksum byte the format has, deterministically in every run: the header's
+    # zero checksum (with and without OEM data) and each record header's zero checksum, for each record type
+    # (the MD5 trailer is never looked at by the code; it is always the real MD5)
+    for v in CKSUM_VALUES:
+        for oem_len in (0, 1, 17, 255):
+            specs.append(force_header_cksum(rand_spec(rng, oem_len=oem_len, fw_max=60), v))
+        for t in (0, 1, 2):
+            s = rand_spec(rng, nactions=rng.randrange(1, 4), fw_max=60)
+            a = {'type': t}
+            if t == 2:
+                a.update(version=rand_version(rng), description=rand_description(rng),
+                         firmware=rand_bytes(rng, rng.randrange(0, 60)).hex())
+            s['actions'].insert(rng.randrange(len(s['actions']) + 1), force_action_cksum(a, v))
+            specs.append(s)
+        # all of them at once: header and every record header carry the value v
+        s = rand_spec(rng, nactions=3, oem_len=rng.choice([0, 5]), fw_max=40)
+        for a in s['actions']:
+            force_action_cksum(a, v)
+        specs.append(force_header_cksum(s, v))
     for s in specs:
         data = enc_image(s)
         image_case(data, 'image-wellformed', 'oem=%d actions=%d' % (len(s['header']['oem']) // 2, len(s['actions'])))
@@ -760,7 +804,7 @@ def run(ctx):
     res.distinct_nontrivial = D.distinct
     res.histogram = D.hist
     res.rule = ('images: independent HPM.1 encoder, OEM data lengths 0..255 (boundaries always, all 256 in thorough), 1..8 '
-                'action records of the three image record types, firmware 0..4096 bytes, the bundled firmware.hpm, and a '
+                'action records of the three image record types, firmware 0..4096 bytes, header and record-header checksum bytes forced to 0x00/0x01/0x7f/0x80/0xff, the bundled firmware.hpm, and a '
                 'malformed stream (truncations, bad BCD, unknown types, wrong declared lengths, random bytes); uploads: '
                 'every in-progress subset for 0..10 blocks and every single '
                 'refusal position, lengths 0..6000 across the 256-block wrap with random plans, block sizes 1..255, default '
